@@ -36,6 +36,14 @@ class Problem(object):
         ks = case.get('kscale', 1.)      # unit system of the user problem (stiffness scale): micro-scale .. large
         self.K = (Q * ev).dot(Q.T) * ks
         self.K = (self.K + self.K.T) / 2.
+        if case.get('structure') == 'saddle' and case['kind'] == 'linear' and n >= 2:
+            # the last unknown is a Lagrange multiplier enforcing g.c = d: symmetric, regular, indefinite, zero on the diagonal of a
+            # row that is not null
+            g = rs.normal(size=n - 1) * ks
+            self.K[n - 1, :] = 0.
+            self.K[:, n - 1] = 0.
+            self.K[n - 1, :n - 1] = g
+            self.K[:n - 1, n - 1] = g
         self.f0 = rs.normal(size=n) * case['f0scale'] * ks
         self.f1 = rs.normal(size=n) * case['fscale'] * ks
         self.beta = case['beta']
@@ -253,7 +261,7 @@ def _history_strategy(draw, tier='quick'):
     kscale = draw(st.sampled_from([1., 1., 1e-12, 1e-6, 1e6]))
     absTOL = draw(gen.logfl(1e-8, 1e-1)) * kscale
     case = {
-        'kscale': kscale,
+        'kscale': kscale, 'structure': draw(st.sampled_from(['spd', 'spd', 'saddle'])),
         'kind': kind, 'n': draw(st.integers(1, 4)), 'seed': draw(st.integers(0, 2 ** 31 - 1)),
         'fscale': draw(gen.logfl(0.1, 100.)), 'f0scale': draw(st.sampled_from([0., 0., 1.])),
         'beta': draw(st.one_of(gen.fl(-5., 5.), st.sampled_from([0.5, -0.5]))), 'gamma': draw(gen.fl(-2., 2.)),
